@@ -5,6 +5,7 @@
 package main
 
 import (
+	"context"
 	"errors"
 	"fmt"
 	"net/http"
@@ -12,7 +13,10 @@ import (
 	"path"
 	"sort"
 	"strings"
+	"time"
 
+	"github.com/zeromicro/go-zero/core/logx"
+	"github.com/zeromicro/go-zero/rest"
 	"github.com/zeromicro/go-zero/rest/pathvar"
 	"github.com/zeromicro/go-zero/rest/router"
 	"verifh/hx"
@@ -20,10 +24,24 @@ import (
 
 type Case struct {
 	ID   int         `json:"id"`
-	NF   bool        `json:"nf"` // install a custom not-found handler
-	NA   bool        `json:"na"` // install a custom not-allowed handler
+	Kind string      `json:"kind"` // "" / "router": router.NewRouter(); "server": rest.NewServer
+	NF   bool        `json:"nf"`   // install a custom not-found handler
+	NA   bool        `json:"na"`   // install a custom not-allowed handler
 	Regs [][2]string `json:"regs"`
 	Reqs [][2]string `json:"reqs"`
+	// server kind
+	Cors   bool    `json:"cors"` // rest.WithCors()
+	Use    bool    `json:"use"`  // server.Use(global middleware)
+	Groups []Group `json:"groups"`
+}
+
+// Group is one AddRoutes call.
+type Group struct {
+	Prefix *string     `json:"prefix"` // nil: no WithPrefix option
+	MW     bool        `json:"mw"`     // routes wrapped with rest.WithMiddlewares
+	Opts   bool        `json:"opts"`   // harmless extra options (timeout, max bytes, priority)
+	Single bool        `json:"single"` // use AddRoute per route
+	Routes [][2]string `json:"routes"`
 }
 
 type Res struct {
@@ -33,6 +51,7 @@ type Res struct {
 	Allow  []string    `json:"allow"`
 	Status int         `json:"status"`
 	Clean  string      `json:"clean"`
+	MWs    []int       `json:"mws"` // middleware tags seen by the handler, outermost first
 	Note   string      `json:"note,omitempty"`
 }
 
@@ -42,17 +61,35 @@ type Out struct {
 	PClean []string `json:"pclean"`
 	Res    []Res    `json:"res"`
 	Err    string   `json:"err,omitempty"`
+	// server kind
+	Start  int         `json:"start"`  // 0 routes bound, else class of the error Start died with
+	Routes [][2]string `json:"routes"` // server.Routes()
 }
 
 type ran struct {
 	h    int
 	vars map[string]string
+	mws  []int
+}
+
+type mwKey struct{}
+
+func tagMW(tag int) rest.Middleware {
+	return func(next http.HandlerFunc) http.HandlerFunc {
+		return func(w http.ResponseWriter, r *http.Request) {
+			old, _ := r.Context().Value(mwKey{}).([]int)
+			tags := append(append([]int{}, old...), tag)
+			next(w, r.WithContext(context.WithValue(r.Context(), mwKey{}, tags)))
+		}
+	}
 }
 
 func regErr(err error) int {
 	switch {
 	case err == nil:
 		return 0
+	case strings.Contains(err.Error(), "listen tcp") || strings.Contains(err.Error(), "invalid port"):
+		return 0 // routes were bound, only the (deliberately impossible) listen failed
 	case errors.Is(err, router.ErrInvalidMethod):
 		return 1
 	case errors.Is(err, router.ErrInvalidPath):
@@ -63,50 +100,163 @@ func regErr(err error) int {
 	return 4
 }
 
+type state struct {
+	runs   []ran
+	custom string
+}
+
+func (st *state) handler(i int) http.HandlerFunc {
+	return func(w http.ResponseWriter, r *http.Request) {
+		vars := map[string]string{}
+		for k, v := range pathvar.Vars(r) {
+			vars[k] = v
+		}
+		mws, _ := r.Context().Value(mwKey{}).([]int)
+		st.runs = append(st.runs, ran{h: i, vars: vars, mws: mws})
+	}
+}
+
+func (st *state) notFound() http.Handler {
+	return http.HandlerFunc(func(w http.ResponseWriter, r *http.Request) {
+		st.custom += "nf"
+		w.WriteHeader(http.StatusNotFound)
+	})
+}
+
+func (st *state) notAllowed() http.Handler {
+	return http.HandlerFunc(func(w http.ResponseWriter, r *http.Request) {
+		st.custom += "na"
+		w.WriteHeader(http.StatusMethodNotAllowed)
+	})
+}
+
+// buildServer registers the groups on a real rest.Server and lets Start bind them to the
+// router; the listen address is made impossible so that Start returns right after binding.
+func buildServer(c Case, st *state, out *Out) http.Handler {
+	var opts []rest.RunOption
+	if c.NF {
+		opts = append(opts, rest.WithNotFoundHandler(st.notFound()))
+	}
+	if c.NA {
+		opts = append(opts, rest.WithNotAllowedHandler(st.notAllowed()))
+	}
+	if c.Cors {
+		opts = append(opts, rest.WithCors())
+	}
+	var conf rest.RestConf
+	conf.Name = "c09"
+	conf.Host = "127.0.0.1"
+	conf.Port = 1
+	conf.Log.Mode = "console"
+	conf.Log.Encoding = "plain"
+	conf.Mode = "test"
+	srv, err := rest.NewServer(conf, opts...)
+	if err != nil {
+		out.Err = "NewServer: " + err.Error()
+		return nil
+	}
+	logx.Disable()
+	if c.Use {
+		srv.Use(tagMW(1000))
+	}
+	h := 0
+	for gi, g := range c.Groups {
+		var rs []rest.Route
+		for _, r := range g.Routes {
+			rs = append(rs, rest.Route{Method: r[0], Path: r[1], Handler: st.handler(h)})
+			h++
+		}
+		if g.MW {
+			rs = rest.WithMiddlewares([]rest.Middleware{tagMW(gi)}, rs...)
+		}
+		var ro []rest.RouteOption
+		if g.Opts {
+			ro = append(ro, rest.WithTimeout(3*time.Second), rest.WithMaxBytes(1<<20))
+		}
+		if g.Prefix != nil {
+			ro = append(ro, rest.WithPrefix(*g.Prefix))
+		}
+		if g.Opts {
+			ro = append(ro, rest.WithPriority())
+		}
+		if g.Single {
+			for _, r := range rs {
+				srv.AddRoute(r, ro...)
+			}
+		} else {
+			srv.AddRoutes(rs, ro...)
+		}
+	}
+	out.Routes = [][2]string{}
+	for _, r := range srv.Routes() {
+		out.Routes = append(out.Routes, [2]string{r.Method, r.Path})
+	}
+	var handler http.Handler
+	var serr error
+	func() {
+		defer func() {
+			if p := recover(); p != nil {
+				if e, ok := p.(error); ok {
+					serr = e
+				} else {
+					serr = fmt.Errorf("panic: %v", p)
+				}
+			}
+		}()
+		srv.StartWithOpts(func(s *http.Server) {
+			handler = s.Handler
+			s.Addr = "127.0.0.1:-1"
+		})
+	}()
+	out.Start = regErr(serr)
+	if serr == nil {
+		out.Start = 4 // Start returned without error: impossible with this address
+	}
+	if out.Start != 0 {
+		return nil
+	}
+	return handler
+}
+
 func runCase(c Case) (out Out) {
 	out.ID = c.ID
 	out.RegErr = []int{}
 	out.PClean = []string{}
 	out.Res = []Res{}
-	rt := router.NewRouter()
-	var runs []ran
-	custom := ""
-	if c.NF {
-		rt.SetNotFoundHandler(http.HandlerFunc(func(w http.ResponseWriter, r *http.Request) {
-			custom += "nf"
-			w.WriteHeader(http.StatusNotFound)
-		}))
-	}
-	if c.NA {
-		rt.SetNotAllowedHandler(http.HandlerFunc(func(w http.ResponseWriter, r *http.Request) {
-			custom += "na"
-			w.WriteHeader(http.StatusMethodNotAllowed)
-		}))
-	}
-	for i, rg := range c.Regs {
-		i := i
-		var err error
-		func() {
-			defer func() {
-				if p := recover(); p != nil {
-					err = fmt.Errorf("panic: %v", p)
-				}
+	st := &state{}
+	var rt http.Handler
+	if c.Kind == "server" {
+		rt = buildServer(c, st, &out)
+		if rt == nil {
+			return out
+		}
+	} else {
+		prt := router.NewRouter()
+		rt = prt
+		if c.NF {
+			prt.SetNotFoundHandler(st.notFound())
+		}
+		if c.NA {
+			prt.SetNotAllowedHandler(st.notAllowed())
+		}
+		for i, rg := range c.Regs {
+			var err error
+			func() {
+				defer func() {
+					if p := recover(); p != nil {
+						err = fmt.Errorf("panic: %v", p)
+					}
+				}()
+				err = prt.Handle(rg[0], rg[1], st.handler(i))
 			}()
-			err = rt.Handle(rg[0], rg[1], http.HandlerFunc(func(w http.ResponseWriter, r *http.Request) {
-				vars := map[string]string{}
-				for k, v := range pathvar.Vars(r) {
-					vars[k] = v
-				}
-				runs = append(runs, ran{h: i, vars: vars})
-			}))
-		}()
-		out.RegErr = append(out.RegErr, regErr(err))
-		out.PClean = append(out.PClean, path.Clean(rg[1]))
+			out.RegErr = append(out.RegErr, regErr(err))
+			out.PClean = append(out.PClean, path.Clean(rg[1]))
+		}
 	}
 	for _, rq := range c.Reqs {
-		runs = nil
-		custom = ""
-		res := Res{Vars: [][2]string{}, Allow: []string{}, Clean: path.Clean(rq[1])}
+		st.runs = nil
+		st.custom = ""
+		res := Res{Vars: [][2]string{}, Allow: []string{}, MWs: []int{}, Clean: path.Clean(rq[1])}
 		req := httptest.NewRequest(http.MethodGet, "/", nil)
 		req.Method = rq[0]
 		req.URL.Path = rq[1]
@@ -124,12 +274,20 @@ func runCase(c Case) (out Out) {
 		}()
 		res.Status = w.Code
 		allow, hasAllow := w.Header()["Allow"]
+		runs, custom := st.runs, st.custom
+		cors := w.Header().Get("Access-Control-Allow-Origin") != ""
 		switch {
 		case panicked:
 			res.K = "panic"
-		case len(runs) == 1 && custom == "" && !hasAllow:
+		case cors && !c.Cors, !cors && c.Cors:
+			res.K = "other"
+			res.Note = "CORS headers do not match the option"
+		case len(runs) == 0 && custom == "" && cors && w.Code == 204 && !hasAllow:
+			res.K = "cors204"
+		case len(runs) == 1 && custom == "" && !hasAllow && w.Code == 200:
 			res.K = "h"
 			res.H = runs[0].h
+			res.MWs = append(res.MWs, runs[0].mws...)
 			for k, v := range runs[0].vars {
 				res.Vars = append(res.Vars, [2]string{k, v})
 			}
